@@ -7,9 +7,10 @@
 // /repo's current working tree and may import crem's internal packages.
 //
 // One sub-command per property; each prints JSON lines on stdout:
-//   {"kind":"case", ...}     an input together with the implementation's projected outputs
-//   {"kind":"oracle", ...}   an input on which the implementation itself violates the property
-//   {"kind":"stat", ...}     distribution of generated inputs
+//
+//	{"kind":"case", ...}     an input together with the implementation's projected outputs
+//	{"kind":"oracle", ...}   an input on which the implementation itself violates the property
+//	{"kind":"stat", ...}     distribution of generated inputs
 package main
 
 import (
@@ -21,6 +22,7 @@ import (
 	"os"
 	"sort"
 	"strconv"
+	"time"
 )
 
 type subcommand func(args []string)
@@ -62,8 +64,8 @@ func (p *prng) next() uint64 {
 	z = (z ^ (z >> 27)) * 0x94D049BB133111EB
 	return z ^ (z >> 31)
 }
-func (p *prng) intn(n int) int     { return int(p.next() % uint64(n)) }
-func (p *prng) float() float64     { return float64(p.next()>>11) / float64(1<<53) }
+func (p *prng) intn(n int) int        { return int(p.next() % uint64(n)) }
+func (p *prng) float() float64        { return float64(p.next()>>11) / float64(1<<53) }
 func (p *prng) chance(q float64) bool { return p.float() < q }
 
 // ---- exact export of finite floats as "num/den" ----
@@ -124,6 +126,29 @@ func protect(f func()) (panicked bool, what string) {
 	}()
 	f()
 	return false, ""
+}
+
+// withWatchdog runs f (implementation code that may spin forever); if it has not returned after the given
+// number of seconds an oracle line is emitted (non-termination is an observation, and the input is the
+// replay) and the process exits with status 3 -- a spinning goroutine cannot be stopped from outside.
+func withWatchdog(seconds int, what string, input J, f func()) {
+	done := make(chan struct{})
+	go func() {
+		select {
+		case <-done:
+		case <-time.After(time.Duration(seconds) * time.Second):
+			line := J{"kind": "oracle", "what": what + ": did not terminate within " + strconv.Itoa(seconds) + " s"}
+			for k, v := range input {
+				line[k] = v
+			}
+			out.Flush()
+			b, _ := json.Marshal(line)
+			os.Stdout.Write(append(b, '\n'))
+			os.Exit(3)
+		}
+	}()
+	f()
+	close(done)
 }
 
 func main() {
